@@ -37,4 +37,9 @@ def main():
 
 
 if __name__ == "__main__":
-    sys.exit(main())
+    rc = main()
+    # Leave without waiting for threads the implementation may have left behind (a call that never returns is reported by the
+    # watchdogs as a violation; its worker threads must not keep the check itself from returning its verdict).
+    sys.stdout.flush()
+    sys.stderr.flush()
+    os._exit(rc if isinstance(rc, int) else 1)
